@@ -3,6 +3,7 @@
 mod astdump;
 mod c01;
 mod c04;
+mod c04same;
 mod c05;
 mod c06;
 mod c07;
